@@ -34,7 +34,7 @@ class C20(Prop):
                'cprobability.ar_pdf', 'cprobability.combine', 'cprobability.estimate_scale_mu_s',
                'cmcmc.gaussian_transition_ratio', 'cmcmc.uniform_prior_ratio', 'cmcmc.flat_prior_ratio', 'cmcmc.gaussian_jump_prob',
                'cconvert.cE_gd', 'cconvert.cE_tk', 'cconvert.ctk_uv', 'cconvert.cTape_MT6', 'cconvert.csingleSDR_SDR',
-               'cprobability.c_ln_normalise', 'cprobability.dkl']
+               'cprobability.c_ln_normalise', 'cprobability.dkl', 'cmcmc.acceptance']
     LOOPS = {'cprobability.c_ln_normalise': ['cprobability.c_ln_normalise'], 'cprobability.dkl': ['cprobability.c_ln_normalise', 'cprobability.c_dkl']}
 
     def setup(self):
@@ -120,6 +120,25 @@ class C20(Prop):
                     a = [rng.uniform(-PI / 6, PI / 6), rng.uniform(-PI / 2, PI / 2), rng.uniform(0, 2 * PI), rng.random(), rng.uniform(-PI / 2, PI / 2)]
                     if rng.random() < 0.2:
                         a[0], a[1] = 0.0, 0.0
+                elif k.endswith('.acceptance'):
+                    mode = rng.choice(['shift-mt', 'shift-dc', 'up', 'down'])
+                    w = [PI / 12 * 10 ** rng.uniform(-1.5, 0), PI / 4 * 10 ** rng.uniform(-1.5, 0), 0.5 * 10 ** rng.uniform(-1.5, 0), PI / 4 * 10 ** rng.uniform(-1.5, 0)]
+                    mt = [rng.uniform(-PI / 6, PI / 6) * 0.95, rng.uniform(-PI / 2, PI / 2) * 0.95, rng.random(), rng.uniform(-PI / 2, PI / 2)]
+                    lo, hi = [-PI / 6, -PI / 2, 0.0, -PI / 2], [PI / 6, PI / 2, 1.0, PI / 2]
+                    near = [min(hi[j], max(lo[j], mt[j] + w[j] * rng.gauss(0, 1.0))) for j in range(4)]
+                    if mode == 'shift-mt':
+                        x, x0 = near, mt
+                    elif mode == 'shift-dc':
+                        x, x0 = [0.0, 0.0] + near[2:], [0.0, 0.0] + mt[2:]
+                    elif mode == 'up':
+                        x, x0 = mt, [0.0, 0.0] + mt[2:]
+                    else:
+                        x, x0 = [0.0, 0.0] + mt[2:], mt
+                    L0 = rng.uniform(-20, 0)
+                    L1 = L0 + rng.choice([rng.gauss(0, 0.5), rng.gauss(0, 3), rng.uniform(-30, 5)])
+                    yield {'kind': 'kernel', 'kernel': k, 'args': x + x0 + w + [L1, L0], 'mode': mode, 'sg': 10 ** rng.uniform(-1.2, -0.3),
+                           'sd': 10 ** rng.uniform(-1.2, -0.3), 'pn': rng.choice([1.0, 0.98, 1.3]), 'p_dc': rng.choice([0.5, 0.2, 0.35, 0.8])}
+                    continue
                 elif k.endswith('c_ln_normalise') or k.endswith('.dkl'):
                     ln_ = lambda: [rng.choice([rng.uniform(-30, 3), rng.uniform(-5, 0), NEG_INF]) + sh for _ in range(nn)]
                     nn = rng.randint(1, 12)
@@ -184,6 +203,20 @@ class C20(Prop):
             pn = 1.0
             alg.alpha = {'gamma_dc': a[2], 'delta_dc': a[3], 'proposal_normalisation': pn, 'gamma': 0.1, 'delta': 0.1, 'kappa': 0.1, 'h': 0.1, 'sigma': 0.1}
             return {'v': [float(alg.jump_params({'gamma': a[0], 'delta': a[1]}))]}
+        if k.endswith('.acceptance'):
+            x, x0, w, (L1, L0) = a[0:4], a[4:8], a[8:12], a[12:14]
+            tkeys = ['gamma', 'delta', 'h', 'sigma']
+            alg.alpha = dict(zip(tkeys, w), kappa=0.3, gamma_dc=case['sg'], delta_dc=case['sd'], proposal_normalisation=case['pn'])
+            alg.gaussian_jump_params = True
+            alg.xi = dict(zip(tkeys, x0), kappa=1.0)
+            alg.ln_likelihood_xi = L0
+            alg.dc = case['mode'] == 'shift-dc'
+            alg.jump = case['mode'] in ('up', 'down')
+            try:
+                return {'v': [float(alg.acceptance(dict(zip(tkeys, x), kappa=1.0), L1, dc_prior=case['p_dc']))]}
+            finally:
+                alg.jump = False
+                alg.dc = False
         if k.endswith('c_ln_normalise'):
             return {'v': [float(v) for v in np.asarray(pr.ln_normalise(np.array(case['p'], dtype=float), a[0]), dtype=float).flatten()]}
         if k.endswith('.dkl'):
@@ -211,6 +244,13 @@ class C20(Prop):
             return []
         k, a = case['kernel'], case['args']
         b = lambda xs: ' '.join(bits(float(v)) for v in xs)
+        if k.endswith('.acceptance'):
+            x, x0, w, (L1, L0) = a[0:4], a[4:8], a[8:12], a[12:14]
+            jump = 1.0 if case['mode'] in ('up', 'down') else 0.0
+            q = x[0:2] if case['mode'] == 'up' else x0[0:2]           # the balancing variables are the full tensor's gamma, delta
+            order = [x[0], x[1], x[2], x[3], x0[0], w[0], x0[1], w[1], x0[2], w[2], x0[3], w[3], L1, L0, jump, q[0], q[1], case['sg'], case['sd'],
+                     case['pn'], case['p_dc']]
+            return ['pyx cmcmc.acceptance %s' % b(order)]
         if k.endswith('c_ln_normalise'):
             return ['pyxl cprobability.c_ln_normalise %d 1 %s 1 %s' % (len(case['p']), b(case['p']), b(a))]
         if k.endswith('.dkl'):
